@@ -16,8 +16,8 @@ for pid in ids:
     p = props.get(pid, {})
     has_k = os.path.isdir(os.path.join(VERIF, "harness", pid))
     has_m = os.path.isdir(os.path.join(VERIF, "smt", pid))
-    if p.get("not_applicable") or not (has_k or has_m) or not p.get("text"):
-        na.append({"property_id": pid, "reason": p.get("not_applicable") or "no solver-based check has been built for this property yet; it is not claimed"})
+    if p.get("not_applicable") or not (has_k or has_m) or not p.get("text") or not p.get("ready"):
+        na.append({"property_id": pid, "reason": p.get("not_applicable") or "the solver-based check for this property is still being brought up (its obligations are not all decided on the unchanged tree yet); it is not claimed in this revision"})
         continue
     if has_k:
         served_k.append(pid)
